@@ -78,3 +78,9 @@ Theorem C11_gone_example :
   gone ex_e1 [sid_name 0; sid_name 1] (fst (step ex_cfg ex_state (EioClose ex_e1 (PStr (s2l "transport close"))))).
 Proof. exact (conj ex_state_Inv (conj ex_cfg_ok ex_gone)). Qed.
 Print Assumptions C11_gone_example.
+
+Theorem C11_quiescent : forall c ops ks,
+  cfg_ok c -> Forall op_ok ops ->
+  c11q_eval (mkQ (map (fun k => dump_of (fst (run c srv_init (firstn k ops)))) ks)) = 0%nat.
+Proof. exact C11_quiescent_lemma. Qed.
+Print Assumptions C11_quiescent.
